@@ -166,14 +166,24 @@ def fam_persist(ctx, rng):
     import hvsrpy
     wild = rng.random() < 0.5
     rec, n, dt = gen_recording(rng, wild=wild)
+    # the file may already exist: an earlier state of the same recording (before the history: as long or longer) was saved
+    # under the same name, or a longer, unrelated recording was - saving writes the file anew
+    d = tempfile.mkdtemp(prefix="c18-", dir=os.environ.get("HVMON_SCRATCH"))
+    path = os.path.join(d, "rec.json")
+    earlier = str(rng.choice(["none", "none", "same-recording-before-the-history", "longer-unrelated-recording"]))
+    if earlier == "same-recording-before-the-history":
+        rec.save(path)
+    elif earlier == "longer-unrelated-recording":
+        gen_recording(rng, wild=False, n=2 * n + 7)[0].save(path)
     hist = apply_history(rng, rec, 0 if wild else int(rng.integers(0, 9)))
-    info = dict(n=n, dt=dt, wild_samples=bool(wild), history=[h[0] for h in hist])
+    info = dict(n=n, dt=dt, wild_samples=bool(wild), history=[h[0] for h in hist], file_existed=earlier)
     ctx.describe(**info, degrees_from_north=rec.degrees_from_north, history_full=hist)
     if hist and not all(np.all(np.isfinite(a)) for a in arrays_of(rec)):
         ctx.count("history_overflowed_not_judged")
+        if os.path.exists(path):
+            os.remove(path)
+        os.rmdir(d)
         return
-    d = tempfile.mkdtemp(prefix="c18-", dir=os.environ.get("HVMON_SCRATCH"))
-    path = os.path.join(d, "rec.json")
     try:
         before = snap.snap(rec)
         import pathlib
